@@ -926,8 +926,14 @@ def proxy_pool_identity_rule(ctx, rule):
                       '`%s`: the map release() looks the handed-out object up in is not keyed by the object this branch returns (or does not '
                       'hold the pooled connection): the give-back misses, the wrapper goes to the base pool and the real connection stays '
                       'checked out' % norm_text(st)[:70], ap.loc(st))
-    if n < 2:
-        raise AnalysisError('acquire_proxy: expected the two stores into the wrapper map (found %d)' % n)
+    if n < 1:
+        raise AnalysisError('acquire_proxy: no store into the wrapper map found')
+    # every place that hands out a wrapper (a fresh start_tls result or the connection's wrapped_connection) files it first
+    for r in [x for x in walk_no_nested(ap.node) if isinstance(x, ast.Return) and x.value is not None]:
+        if any(isinstance(y, ast.Attribute) and y.attr == 'wrapped_connection' for y in ast.walk(r.value)):
+            ck.bad(rule, ap.qual, 'a reused wrapper is filed in self.%s before it is handed out' % mp,
+                   '`%s` hands out the TLS wrapper of a kept-alive tunnel without filing it in the map release() consults: the give-back '
+                   'misses and the pooled connection stays checked out' % norm_text(r)[:60], ap.loc(r))
     # (b) host key
     params = ap.params[1:4]
     hk = [st for st in walk_no_nested(ap.node) if isinstance(st, ast.Assign) and any(isinstance(t, ast.Name) and t.id == 'host_key' for t in st.targets)]
